@@ -93,6 +93,17 @@ impl Stage {
     }
 }
 
+thread_local! {
+    static AVOID_KNOWN: std::cell::Cell<bool> = const { std::cell::Cell::new(true) };
+}
+/// set per case from `!c.strict`
+pub fn set_avoid_known(v: bool) {
+    AVOID_KNOWN.with(|a| a.set(v));
+}
+fn avoid_known() -> bool {
+    AVOID_KNOWN.with(|a| a.get())
+}
+
 fn is_numeric(ty: &LType) -> bool {
     matches!(ty, LType::Int { .. } | LType::F16 | LType::F32 | LType::F64 | LType::Decimal { width: 128 | 256, .. })
 }
@@ -178,6 +189,35 @@ pub fn gen_stage(t: &mut Tape, ty: &LType, col: &[LValue], allow_errors: bool) -
             10 | 11 => {
                 let to = t.pick(&CAST_TARGETS).clone();
                 if !can_cast_types(&ty.arrow(), &to) {
+                    continue;
+                }
+                // known findings of the cast kernels that make results depend on storage no valid row refers to
+                // (C13f9/C13f9b: strict casts of dictionary / run-end / binary / nested arrays also convert unused
+                // dictionary values, bytes outside the offsets and slots under null parents; casts of unions): such
+                // casts are excluded by construction here unless replaying strictly; C13 carries the reproductions
+                if avoid_known() && ty.any(&|t| matches!(t, LType::Decimal { .. })) && matches!(to, DataType::Decimal128(..)) {
+                    continue;
+                }
+                // FixedSizeList(1 x run-end/union) -> value: null list rows cannot be masked in children without a validity
+                // buffer (same root as open finding F9 nullif on run-end arrays)
+                if avoid_known() && matches!(ty, LType::FixedList(f, 1) if f.ty.any(&|t| matches!(t, LType::Ree { .. } | LType::Union { .. }))) {
+                    continue;
+                }
+                if avoid_known() {
+                    let unsafe_storage = ty.any(&|t| matches!(t, LType::Dict { .. } | LType::Ree { .. } | LType::Binary(_) | LType::FixedBinary(_) | LType::List(..) | LType::FixedList(..) | LType::Struct(_) | LType::Map { .. }));
+                    let strict_cast = !matches!(to, DataType::Boolean) && t.bool();
+                    let _ = strict_cast;
+                    if ty.any(&|t| matches!(t, LType::Union { .. })) {
+                        continue;
+                    }
+                    if unsafe_storage {
+                        // safe mode only
+                        return Stage::Cast(to, true);
+                    }
+                }
+                // known finding C13f10 (decimal -> decimal "infallible" rescale unwraps on the payload of null slots):
+                // excluded by construction unless replaying strictly
+                if avoid_known() && ty.any(&|t| matches!(t, LType::Decimal { .. })) && matches!(to, DataType::Decimal128(..)) {
                     continue;
                 }
                 Stage::Cast(to, if allow_errors { t.bool() } else { true })
